@@ -562,11 +562,11 @@ def rule_r6(repo):
 
 
 def run(repo, check):
-    check.add(rule_r1(repo))
-    check.add(rule_r2(repo, check.tier))
-    check.add(rule_r3(repo, check.tier))
-    check.add(rule_r4(repo))
-    check.add(rule_r5(repo))
-    check.add(rule_r6(repo))
+    check.run_rule(rule_r1, repo)
+    check.run_rule(rule_r2, repo, check.tier)
+    check.run_rule(rule_r3, repo, check.tier)
+    check.run_rule(rule_r4, repo)
+    check.run_rule(rule_r5, repo)
+    check.run_rule(rule_r6, repo)
     check.assumptions = ['bit positions are modelled exactly (a field of n bits advances the position by n); the bytes themselves are bitstring\'s (C19)',
                          'the synthetic section layouts used for the fold have the same shape as sections 1-4 (24-bit section_length, fixed part, data)']
